@@ -52,6 +52,7 @@ def run(ctx):
     ctx.run_rule("R5-unsafe-inventory", r5_unsafe, F, table)
     ctx.run_rule("R6-one-write", r6_one_write, F)
     ctx.run_rule("R7-frame", r7_frame, F)
+    ctx.run_rule("R7-frame-error", r7_error, F)
     ctx.run_rule("R8-space-check", c04.r3_space_check, F)
     ctx.counts["R8-space-check"] = ctx.counts.get("R3-space-check", 0)
     ctx.run_rule("R9-remap", r9_remap, F)
@@ -638,6 +639,20 @@ def r7_frame(ctx, F):
         allowed = (["header", "data"], ["header", "out"], ["header", "out", "data"])
         ctx.check("R7-frame", "reply_ok/order@%s" % "+".join(order), order in allowed,
                   "reply_ok writes its parts in the order %s; required header, bytes of out, data" % order, loc=c.loc(), detail=str(order))
+
+
+def r7_error(ctx, F):
+    """The error reply's header: len = header only, error = the NEGATED errno on every arm (raw errno and the ErrorKind fallback),
+    unique = the request's (shared with C03.R3)."""
+    from rules import c03
+    t = json.load(open(c03.TABLE))
+    vf.NOUPD[0] = True
+    vf.NOCAST[0] = True
+    try:
+        c03.r3_errno(ctx, F, t)
+    finally:
+        vf.NOUPD[0] = False
+        vf.NOCAST[0] = False
 
 
 def r9_remap(ctx, F):
